@@ -315,6 +315,78 @@ def worker(job):
     return st
 
 
+def dot_worker(job):
+    """'.' among several starting points: find leaves its own working directory alone (silently; -delete is true for it) and removes
+    everything else that matched - under '.' and under the other starting points, whatever their order on the command line."""
+    k, nruns, seed = job
+    st = Stats()
+    rng = common.rng_for(seed, "C10dot", k)
+    base = common.mkscratch("C10d%d" % k)
+    try:
+        for t in range(nruns):
+            sb = os.path.join(base, "d%d" % t)
+            nodes = [treegen.Node("here", "d"), treegen.Node("other", "d"), treegen.Node("third", "d"), treegen.Node("keep", "d"), treegen.Node("keep/k", "f", size=2)]
+            for top in ("here", "other", "third"):
+                for nm in rng.sample(NAMES, rng.randint(1, 5)):
+                    kind = rng.choice(["f", "f", "d"])
+                    nodes.append(treegen.Node(top + "/" + nm, kind))
+                    if kind == "d" and rng.random() < 0.6:
+                        nodes.append(treegen.Node(top + "/" + nm + "/in", "f"))
+            os.makedirs(sb)
+            treegen.build(sb, nodes)
+            roots = rng.choice([[".", "../other"], ["../other", "."], [".", "../other", "../third"], ["../third", ".", "../other"], ["."],
+                                ["../other", "../third"], ["./", "../other"], [".", "."]])
+            cwd = os.path.join(sb, "here")
+            ents, w = refwalk.walk_list(roots, "P", 0, None, True, True, cwd)
+            seq = [e.path for e in ents]
+            args = [common.FIND] + roots + ["-sorted", "-delete", "-printf", "D:%p\\0"]
+            rc, out, err, to = common.run_cmd(args, cwd=cwd, env=common.clean_env(), timeout=60)
+            st.inc("evaluations")
+            st.inc("runs_with_dot_among_the_starting_points")
+            st.add("distinct", (tuple(roots), tuple(n.path for n in nodes)))
+            rp = {"tree": [n.to_json() for n in nodes], "args": ["find"] + roots + ["-sorted", "-delete", "-printf", "D:%p\\0"], "cwd": "here"}
+            if to or rc in (101, 134, -6, -11):
+                st.violate("panic-or-hang", None, {"args": rp["args"], "rc": rc, "stderr": err[-300:]}, rp)
+                common.force_rmtree(sb)
+                continue
+            problems = []
+            dtrue = [x.decode("utf-8", "surrogateescape")[2:] for x in out.split(b"\0")[:-1]]
+            # a starting point given twice: its entries are gone when the second walk starts; the second '.' is again left alone
+            seen, want_true = set(), []
+            for p_ in seq:
+                key = os.path.normpath(os.path.join(cwd, p_))
+                if key in seen and key != os.path.normpath(cwd):
+                    continue
+                seen.add(key)
+                want_true.append(p_)
+            # the working directory itself ('.', './') cannot be removed: leaving it alone silently (-delete true) and diagnosing it
+            # (-delete false, non-zero exit) are both accepted - the statement does not single it out; every OTHER matched entry,
+            # the other starting points included, must really be removed
+            here = [r_ for r_ in roots if os.path.normpath(os.path.join(cwd, r_)) == os.path.normpath(cwd)]
+            diagnosed = [h for h in set(here) if h not in dtrue]
+            if [p_ for p_ in dtrue if p_ not in here] != [p_ for p_ in want_true if p_ not in here]:
+                problems.append("-delete true for %r, expected %r" % (dtrue[:8], want_true[:8]))
+            left = sorted(treegen.snapshot(sb).keys())
+            want_left = ["here", "keep", "keep/k"] + [top for top in ("other", "third") if "../" + top not in roots]
+            want_left += [n.path for n in nodes if n.path.split("/")[0] in want_left[3:] and "/" in n.path]
+            if "." not in roots and "./" not in roots:
+                want_left += [n.path for n in nodes if n.path.startswith("here/")]
+            if sorted(set(left) - {""}) != sorted(set(want_left)):
+                problems.append("left behind %r, expected %r" % (sorted(set(left) - {""})[:10], sorted(set(want_left))[:10]))
+            if diagnosed:
+                st.inc("runs_in_which_the_working_directory_was_diagnosed")
+                if rc == 0 or not err.strip():
+                    problems.append("-delete false for %r but exit status %r, stderr %r" % (diagnosed, rc, err[-200:]))
+            elif rc != 0 or err.strip():
+                problems.append("exit status %r, stderr %r although nothing failed" % (rc, err[-200:]))
+            if problems:
+                st.violate("delete", None, {"args": rp["args"], "cwd": "here", "problems": problems, "exit": rc, "stderr": err[-200:]}, rp)
+            common.force_rmtree(sb)
+    finally:
+        common.force_rmtree(base)
+    return st
+
+
 def vanished_worker(job):
     """A matched entry that is gone by the time -delete is evaluated (removed by an earlier action of the same expression):
     the removal fails, so -delete must be false, diagnosed, and make find exit non-zero. Shapes: `E -delete -delete` and
@@ -393,6 +465,8 @@ def run(ctx):
     ctx.pmap(worker, [(k, n // nw, ctx.seed) for k in range(nw)])
     nv = ctx.scale(160, 32000)
     ctx.pmap(vanished_worker, [(k, max(2, nv // nw), ctx.seed) for k in range(nw)])
+    ctx.pmap(dot_worker, [(k, ctx.scale(8, 600), ctx.seed) for k in range(nw)])
+    ctx.require("runs_with_dot_among_the_starting_points", 50)
     ctx.require("vanished_entries_evaluated", 10)
     for key in ("runs_with_failed_removal", "runs_mode_P", "runs_mode_H", "runs_mode_L", "link_entries_removed", "removal_events_observed", "sandboxes_with_non_utf8_names"):
         ctx.require(key, 3)
